@@ -19,7 +19,7 @@ def FLOORS(tier):
     q = tier == "quick"
     f = {"result-contract-checks": 2500 if q else 10 ** 5, "empty-or-constant-model": 60, "matrix-with-gaps": 100,
          "with-initial_state": 600, "num_anneals<=0": 300, "hook-dE-checks": 10 ** 5, "hook-exactness-verdicts": 2000, "schedule:one-shot-iterator": 30, "second-anneal-after-in-place-edit": 150,
-         "second-anneal:cancel": 20, "second-anneal:set0": 20, "returned-state-scribbled": 300,
+         "second-anneal:cancel": 20, "second-anneal:set0": 20, "returned-state-scribbled": 300, "kwargs-spelled-as-numpy-scalars": 200,
          "user-mapping:set_mapping": 40, "user-mapping:set_reverse_mapping": 40, "coefficients:wide-big": 100, "coefficients:wide-small": 60}
     for fn in A.FUNCS:
         for t in A.ACCEPT[fn]:
@@ -58,6 +58,8 @@ def case(ctx, rng, idx):
     if cfg["user_mapping"]:
         ctx.cat("user-mapping:" + cfg["user_mapping"])
     ctx.cat("coefficients:" + cfg["coef_kind"])
+    if cfg["numpy_spelled"]:
+        ctx.cat("kwargs-spelled-as-numpy-scalars")
     if not A.hook_verdict(ctx, w, exact=cfg["coef_kind"] != "given"):
         return
     # the caller owns what it got back: scribbling on one returned state touches neither the other results nor the
